@@ -403,8 +403,53 @@ def clause5c_header_state_is_consumed(ctx, P):
            witness=bad.witness() if bad else None)
 
 
+def clause5d_upgrade_names_websocket(ctx, P):
+    """RFC 6455 4.2.1: the request carries an |Upgrade| header field containing the value "websocket", compared case-insensitively.
+    http_parser's `upgrade` flag only says that SOME Upgrade header and 'Connection: upgrade' were seen.  So the 101 is sent only
+    behind a test of a record (a member of struct websocket) that is set to true nowhere but behind a case-insensitive comparison
+    with the literal "websocket" - otherwise an upgrade to another protocol that carries websocket headers (Upgrade: h2c) becomes
+    a jet peer"""
+    sur = P.fn("websocket.c:send_upgrade_response")
+    wv = [i for i in sur.all_insts() if i.op == "call" and not i.callee]
+    if not wv:
+        raise AnalysisBroken("send_upgrade_response: the write of the 101 not found")
+    site = wv[-1]
+    cands = []
+    for (atom, pol) in Q.guards_of(P, sur, site.block):
+        t = atom[1] if atom[0] == "truth" else atom[2]
+        for x in Q.subterms(t):
+            if x[0] == "field" and x[2] == "struct.websocket":
+                cands.append(x[3])
+    ok = None
+
+    def names_websocket(a, p):
+        if a[0] != "cmp" or a[3] != ("const", 0) or not ((a[1] == "eq" and p) or (a[1] == "ne" and not p)):
+            return False
+        c = a[2]
+        if not Q.is_call_to(c, ("jet_strncasecmp", "strncasecmp", "jet_strcasecmp", "strcasecmp")):
+            return False
+        return any(isinstance(x, tuple) and x[0] == "str" and x[1].lower() == "websocket" for x in Q.subterms(c)) or \
+            any(x[0] == "global" and (Q.global_text(P, P.globals.get(x[1], {})) or "").lower() == "websocket" for x in Q.subterms(c) if isinstance(x, tuple))
+    for fld in sorted(set(cands)):
+        sets = []
+        for name in Q.field_writers(P, "struct.websocket", fld):
+            h = P.functions[name]
+            for i in h.all_insts():
+                if i.op == "store" and P.const_int(i.a[0]) == 1:
+                    d = P.term(h, i.a[1])
+                    if d[0] == "field" and (d[2], d[3]) == ("struct.websocket", fld):
+                        sets.append((h, i))
+        if sets and all(Q.must_pass(P, h, i.block, names_websocket) for (h, i) in sets):
+            ok = fld
+    ctx.ob("C12.5 R-GATE", sur, "upgrade-header-names-websocket", ok is not None,
+           "the 101 is sent without a record that the Upgrade header named \"websocket\" (none of the tested members %s is set only behind "
+           "a case-insensitive comparison with that literal): 'Upgrade: h2c' with websocket headers is answered with 101 Switching "
+           "Protocols and becomes a jet peer" % sorted(set(cands)) if ok is None else "record: %s" % ok)
+
+
 def clause5_handshake(ctx, P, cg):
     clause5c_header_state_is_consumed(ctx, P)
+    clause5d_upgrade_names_websocket(ctx, P)
     sur = P.fn("websocket.c:send_upgrade_response")
     hc = P.fn("websocket.c:websocket_upgrade_on_headers_complete")
     sk = P.fn("websocket.c:save_websocket_key", required=False)
